@@ -211,6 +211,150 @@ def near(values, lo, hi):
     return st.one_of(st.sampled_from(cands), st.integers(lo, hi))
 
 
+# ------------------------------------------------------------------------------------------------ scale
+@st.composite
+def scale_spec(draw, booleans_only=False, allow_const=False):
+    """LARGE models, one dimension at a time: 'wide' one node with 17-140 children; 'deep' a chain of 7-40 nested connectives;
+    'bushy' a tree with 60-250 nodes; 'many' 20-70 small rules under one conjunction (a rule base); 'longids' ids of
+    40-300 characters (also ids that only differ near their end). Sizes are drawn around the round numbers at which
+    implementations switch strategy (16, 32, 64, 100, 128)."""
+    shape = draw(st.sampled_from(["wide", "wide", "deep", "bushy", "many", "longids"]))
+    L = lambda i, b=(0, 1): {"k": "leaf", "id": i, "b": list(b)}
+    around = lambda: draw(st.sampled_from([17, 20, 31, 32, 33, 40, 63, 64, 65, 100, 101, 128, 129, 140]))
+    if shape == "wide":
+        n = around()
+        kids = [L("o%03d" % i) for i in range(n)]
+        if not booleans_only:
+            for j in range(draw(st.integers(0, 3))):
+                kids.append(L(draw(st.sampled_from(["a_q%d", "o050x%d", "zz%d"])) % j, draw(st.sampled_from([(0, 5), (-2, 3), (-3, 0), (1, 4)]))))
+        for j in range(draw(st.integers(0, 2))):
+            sub = [kids[(7 * j + 3 * k) % n] for k in range(draw(st.integers(1, 3)))]
+            sub = list({s["id"]: s for s in sub}.values())
+            kids.append({"k": draw(st.sampled_from(["Any", "All"])), "id": draw(st.sampled_from([None, "G%d" % j])), "c": sub})
+        m = len(kids)
+        kind = draw(st.sampled_from(["AtLeast", "AtLeast", "AtMost", "All", "Any", "Xor"]))
+        node = {"k": kind, "id": draw(st.sampled_from(["score", None])), "c": kids}
+        if kind == "AtLeast":
+            node["v"] = draw(st.sampled_from([1, 2, m // 2, m - 1, m, m + 1, n, n - 1, 16, 32, 64]))
+            node["s"] = draw(st.sampled_from([1, None, -1]))
+            if node["s"] == -1:
+                node["v"] = -draw(st.sampled_from([0, 1, m // 2, m - 1, m]))
+        elif kind == "AtMost":
+            node["v"] = draw(st.sampled_from([0, 1, m // 2, m - 1, m]))
+    elif shape == "deep":
+        d = draw(st.sampled_from([7, 10, 15, 16, 17, 24, 31, 32, 33, 40]))
+        node = {"k": "Any", "id": None, "c": [L("x000"), L("y000")]}
+        for j in range(1, d):
+            k = draw(st.sampled_from(["All", "Any", "Imply", "Not", "AtLeast", "Xor"]))
+            lf = L("x%03d" % j)
+            cid = draw(st.sampled_from([None, None, "D%03d" % j]))
+            if k == "Not":
+                node = {"k": "Not", "c": [node]}
+            elif k == "Imply":
+                node = {"k": "Imply", "id": cid, "c": [node, lf] if draw(st.booleans()) else [lf, node]}
+            elif k == "AtLeast":
+                node = {"k": "AtLeast", "v": draw(st.integers(1, 2)), "s": 1, "id": cid, "c": [node, lf]}
+            else:
+                node = {"k": k, "id": cid, "c": [node, lf]}
+    elif shape == "bushy":
+        counter = [0]
+        target = draw(st.sampled_from([60, 100, 128, 200, 250]))
+
+        def tree(depth):
+            if depth == 0:
+                counter[0] += 1
+                return L("v%03d" % (counter[0] % 90))
+            k = draw(st.sampled_from(["All", "Any", "AtLeast", "AtMost", "Imply"]))
+            width = 2 if k == "Imply" else draw(st.integers(2, 4))
+            ch, seen = [], set()
+            for _ in range(width):
+                c = tree(depth - 1 if counter[0] < target else 0)
+                key = c.get("id") if c["k"] == "leaf" else id(c)
+                if key not in seen:
+                    seen.add(key)
+                    ch.append(c)
+            if k == "Imply" and len(ch) < 2:
+                k = "Any"
+            counter[0] += 1
+            n_ = {"k": k, "id": None, "c": ch}
+            if k == "AtLeast":
+                n_["v"], n_["s"] = draw(st.integers(1, len(ch))), 1
+            elif k == "AtMost":
+                n_["v"] = draw(st.integers(0, len(ch)))
+            return n_
+        node = tree(draw(st.integers(3, 5)))
+    elif shape == "many":
+        r = draw(st.sampled_from([20, 31, 32, 33, 50, 64, 65, 70]))
+        nl = draw(st.sampled_from([8, 16, 30, 60]))
+        rules = []
+        for j in range(r):
+            a, b, c = ("i%02d" % ((3 * j + q * (j % 5 + 1)) % nl) for q in range(3))
+            k = draw(st.sampled_from(["Imply", "Imply", "Any", "AtMost", "Xor"]))
+            if k == "Imply":
+                rules.append({"k": "Imply", "id": "R%03d" % j, "c": [L(a), L(b)] if a != b else [L(a), L("zz")]})
+            else:
+                ch = list({x: L(x) for x in (a, b, c)}.values())
+                n_ = {"k": k, "id": "R%03d" % j, "c": ch}
+                if k == "AtMost":
+                    n_["v"] = 1
+                rules.append(n_)
+        node = {"k": "All", "id": "rules", "c": rules}
+    else:
+        n = draw(st.integers(3, 8))
+        ln = draw(st.sampled_from([40, 64, 65, 128, 200, 300]))
+        stem = "component/with/a/long/path/name-" * (ln // 30 + 1)
+        kids = [L((stem[:ln - 3] + "%03d" % i)) for i in range(n)]
+        sub = {"k": "Any", "id": draw(st.sampled_from([None, stem[:ln - 3] + "grp"])), "c": kids[:2]}
+        node = {"k": draw(st.sampled_from(["All", "Any", "AtLeast"])), "id": draw(st.sampled_from([None, stem[:ln]])), "c": [sub] + kids[2:]}
+        if node["k"] == "AtLeast":
+            node["v"], node["s"] = draw(st.integers(1, len(node["c"]))), 1
+    if allow_const and draw(st.integers(0, 3)) == 0:
+        from vf import oracle as _o
+        leaves = sorted(_o.spec_leaves(node))
+        for lid in leaves[::max(1, len(leaves) // 3)][:4]:
+            node = with_fixed_leaf(node, lid, draw(st.integers(0, 1)))
+    outer = draw(st.sampled_from(["none", "none", "none", "Not", "Imply"]))
+    if outer == "Not":
+        return {"k": "Not", "c": [node]}
+    if outer == "Imply":
+        return {"k": "Imply", "id": None, "c": [node, L("zq")]}
+    return node
+
+
+@st.composite
+def scale_case(draw, n_points=(10, 16), **kw):
+    """{"model": large spec, "points": drawn assignments}: all-zero, all-one, sparse, dense and mixed rows"""
+    from vf import oracle
+    spec = draw(scale_spec(**kw))
+    lv = oracle.spec_leaves(spec)
+    ids = sorted(lv)
+    n = draw(st.integers(*n_points))
+    pts = []
+    for r in range(n):
+        mode = r if r < 2 else draw(st.integers(2, 5))
+        seed_bits = draw(st.integers(0, 2 ** 62))
+        row = []
+        for j, i in enumerate(ids):
+            lo, hi = lv[i]
+            bit = (seed_bits >> (j % 62)) & 1
+            bit2 = (seed_bits >> ((j * 7 + 3) % 62)) & 1
+            if mode == 0:
+                v = lo
+            elif mode == 1:
+                v = hi
+            elif mode == 2:
+                v = hi if (bit and bit2) else lo      # sparse
+            elif mode == 3:
+                v = lo if (bit and bit2) else hi      # dense
+            elif mode == 4:
+                v = hi if bit else lo
+            else:
+                v = lo + (seed_bits >> (j % 50)) % (hi - lo + 1)
+            row.append(v)
+        pts.append(row)
+    return {"model": spec, "points": pts}
+
+
 # ------------------------------------------------------------------------------------------------ configurators
 CFG_KINDS = ["cAny", "cAny", "cAny", "cXor", "cXor", "Any", "Xor", "All", "AtMost", "AtLeast", "XNor", "Imply", "Imply"]
 
